@@ -71,6 +71,7 @@ func encodeFunction(w *World, fn *ssa.Function, dropped map[string]bool) (e *Enc
 		}
 		if v.K == KIface {
 			e.assumeFact(c.Not(c.Eq(v.Tag, c.Int(0))))
+			e.knownDynType(v)
 		}
 		args = append(args, v)
 		e.inputs = append(e.inputs, inputVal{p.Name(), v})
@@ -503,5 +504,19 @@ func debugModel(e *Encoder, o *Obligation) {
 	}
 	for i, s := range syms {
 		fmt.Printf("      %s = %s\n", s.Name, vals[i].String())
+	}
+}
+
+// knownDynType: interface parameters whose only implementation in the
+// dependency graph is known get that dynamic type (stated assumption), so that
+// the real code of the implementation is verified against instead of a model.
+func (e *Encoder) knownDynType(v *SVal) {
+	if v.Typ.String() == "github.com/google/gopacket.SerializeBuffer" {
+		if t := e.w.lookupTypeByName("*github.com/google/gopacket.serializeBuffer"); t != nil {
+			v.Dyn = t
+			e.assumeFact(e.c.Eq(v.Tag, e.c.Int(int64(e.w.typeTag(t)))))
+			e.assumeFact(e.c.Not(e.c.Eq(v.T, e.c.NilRef())))
+			e.trusted["every gopacket.SerializeBuffer is gopacket's own *serializeBuffer (created by NewSerializeBuffer); its real code is inlined"] = true
+		}
 	}
 }
